@@ -800,6 +800,16 @@ class Interp:
         if isinstance(base, (list, tuple, str, bytes)) and (lo is None or isinstance(lo, int)) and (hi is None or isinstance(hi, int)):
             return base[lo:hi]
         if isinstance(base, (Seq, bytes, list)):
+            # a symbolic bound whose sign is not known selects between python's two indexing regimes: split the path
+            # there (each side then has simple linear terms) instead of carrying nested if-then-else terms
+            for b in (lo, hi):
+                if isinstance(b, SInt) and self.st is not None:
+                    bz = zint(b)
+                    if not self.st.quick(bz >= 0) and not self.st.quick(bz < 0):
+                        self.st.decide(bz >= 0)
+                    nz = zint(to_seq(base).n) if not isinstance(to_seq(base).n, int) else z3.IntVal(to_seq(base).n)
+                    if self.st.quick(bz >= 0) and not self.st.quick(bz <= nz) and not self.st.quick(bz > nz):
+                        self.st.decide(bz <= nz)
             r = V.seq_slice(base, lo, hi)
             if isinstance(base, list) and r.items is not None:
                 return list(r.items)
@@ -1679,8 +1689,33 @@ class Interp:
 
     # -- loop cut at an invariant (DESIGN 2.3)
     def havoc_targets(self, s, fr):
-        """names and object fields the loop body may assign"""
+        """names and object fields the loop body may assign (including, for calls of self.<method>(...), the
+        attributes of self assigned by that method and the methods it calls - interprocedural modifies set)"""
         names, attrs = set(), []
+        selfname = fr.func.node.args.args[0].arg if (fr.func is not None and fr.func.cls is not None and fr.func.node.args.args) else None
+        selfobj = fr.env.get(selfname) if selfname else None
+        if isinstance(selfobj, Obj):
+            seen, work = set(), [ast.Module(body=s.body + (s.orelse or []), type_ignores=[])]
+            test = getattr(s, 'test', None)
+            if test is not None:
+                work.append(test)
+            while work:
+                node = work.pop()
+                for n in ast.walk(node):
+                    if isinstance(n, ast.Call) and isinstance(n.func, ast.Attribute) and isinstance(n.func.value, ast.Name) and n.func.value.id == selfname:
+                        m = selfobj.cls.find_method(n.func.attr)
+                        if m is not None and m.qualname not in seen and m.qualname not in self.cfg.contracts:
+                            seen.add(m.qualname)
+                            mself = m.node.args.args[0].arg if m.node.args.args else None
+                            for x in ast.walk(m.node):
+                                tg = x.targets if isinstance(x, ast.Assign) else [x.target] if isinstance(x, (ast.AugAssign, ast.AnnAssign)) else []
+                                for t in tg:
+                                    for y in ([t] if not isinstance(t, (ast.Tuple, ast.List)) else t.elts):
+                                        if isinstance(y, ast.Subscript):
+                                            y = y.value
+                                        if isinstance(y, ast.Attribute) and isinstance(y.value, ast.Name) and y.value.id == mself:
+                                            attrs.append(ast.Attribute(value=ast.Name(id=selfname, ctx=ast.Load()), attr=y.attr, ctx=ast.Load()))
+                            work.append(m.node)
         for n in ast.walk(ast.Module(body=s.body, type_ignores=[])):
             tg = []
             if isinstance(n, ast.Assign): tg = n.targets
@@ -1715,6 +1750,10 @@ class Interp:
             return r
         if v is None:
             return None
+        if isinstance(v, dict) and all(isinstance(k, (str, int)) and not V.is_sym(k) for k in v):
+            return {k: self.havoc_value(x, '%s[%s]' % (hint, k)) for k, x in v.items()}
+        if isinstance(v, str):
+            return v
         raise Unsupported('havoc of %r (%s)' % (v, hint))
 
     def do_havoc(self, s, fr, ann):
